@@ -244,12 +244,12 @@ fn callset(rows: &[Vec<Cls>], variant: usize) -> CallSet {
         let last = cs.records.len() - 1;
         cs.records[last].alts = vec!["C", "G", "T"];
         // a record in which nobody carries an ALT allele is written without one (ALT `.`), its
-        // missing genotypes as `./.`, `.|.` or a bare `.`
+        // missing genotypes as `./.` or `.|.`
         if row.iter().all(|c| matches!(c, Cls::G0 | Cls::Missing)) {
             cs.records[last].alts = vec![];
             for (j, c) in row.iter().enumerate() {
                 if *c == Cls::Missing {
-                    cs.records[last].gts[j] = ["./.", ".|.", "."][(i + j + variant) % 3].to_string();
+                    cs.records[last].gts[j] = ["./.", ".|."][(i + j + variant) % 2].to_string();
                 }
             }
         }
@@ -536,6 +536,15 @@ pub fn run(tier: Tier) -> i32 {
         exhaustive: true,
         extra: vec![],
     });
+    {
+        let sp: Vec<(RefArray, usize)> = vec![
+            (RefArray::from_fn(&[5], |f, _| (f * 3 + 1) as f64 / 7.0), 6),
+            (RefArray::from_fn(&[3, 5], |f, _| ((f * 7) % 11) as f64 / 3.0), 2),
+            (RefArray::from_fn(&[3, 3, 3], |f, _| (f % 4) as f64 * 0.125), 17),
+            (RefArray::from_fn(&[67, 63], |f, _| (f % 17) as f64 / 9.0), 6),
+        ];
+        super::plain_streams_part(&mut rep, "C02", "projected spectra of 5 .. 4 221 fractional entries at precision 2, 6 and 17", &sp);
+    }
     rep.assumptions = vec![
         "reference hyper_exact (exact u128 binomials for N<=120, compensated log-factorials above)".into(),
         "one-record rows are compared per coefficient, relatively also in the tails: 1e-11 for t <= 170 chromosomes, 1e-10 for t <= 5000, 1e-8 above; multi-record sums within 1e-8|r| + 1e-13 (DESIGN 2.9)".into(),
